@@ -114,6 +114,7 @@ func TimeString07(b []byte) string {
 // gbk07 holds the GBK bytes of the non-ASCII texts the generators use
 // (GB 2312 region, values cross-checked with an independent codec).
 var gbk07 = map[rune][]byte{
+	'€': {0x80}, // single-byte code of the WHATWG GBK table used by golang.org/x/text
 	'测': {0xB2, 0xE2}, '试': {0xCA, 0xD4}, '京': {0xBE, 0xA9}, '中': {0xD6, 0xD0},
 	'文': {0xCE, 0xC4}, '粤': {0xD4, 0xC1}, '上': {0xC9, 0xCF}, '传': {0xB4, 0xAB},
 }
